@@ -117,6 +117,8 @@ def run(ctx, rep):
     # conversions that `?` calls included — is a row of the reviewed table (same table as C01/A6)
     from . import site
     site.check_sites(F, rep, "R3", [root], 10)
+    from . import lin as _lin
+    _lin.x9(ctx, rep, "R7", [root])
     rep.floor("R1", "eof-probe", n_probe, 1)
     rep.floor("R2", "source-reads", n_read, 2)
     rep.floor("R2", "destination-writes", n_write, 2)
